@@ -742,6 +742,12 @@ fn gen_header_items(r: &mut Rng) -> (Vec<(u32, Val)>, Vec<(u32, Val)>) {
             match r.below(5) {
                 0 => Vec::new(),
                 1 => b"abc".to_vec(),
+                // a digest whose length belongs to ANOTHER algorithm than the one the header names (or
+                // defaults to): the accessor must not make up an algorithm that fits
+                4 if r.chance(1, 2) => {
+                    let n = [16usize, 20, 28, 32, 48, 64][r.usize(6)];
+                    hex::encode(r.bytes(n)).into_bytes()
+                }
                 k => {
                     let h = if algo8 { crate::util::sha256_hex(&r.bytes(4)) } else { hex::encode(r.bytes(16)) };
                     // the header stores text: upper-case and mixed-case digits must come back as stored
